@@ -117,8 +117,23 @@ Final == /\ l <= Len(Trace) /\ Ev.t = "final"
               \E i \in 1..Len(Ev.objs) : Ev.objs[i].b = b /\ Ev.objs[i].k = k /\ Ev.objs[i].present
          /\ l' = l + 1 /\ UNCHANGED <<st, cfg, pend>>
 
-Next == Reset \/ Inv \/ Res \/ Final \/ Crash \/ (\E c \in DOMAIN pend : Lin(c) \/ CopyRd(c) \/ CopyWr(c))
+\* Silent steps are taken only immediately before a response (or the final snapshot, or a crash) is
+\* consumed.  Nothing is lost: an invocation only adds to pend and neither reads nor writes st, so a silent
+\* step commutes with every later invocation event and can be postponed to the next event of another kind.
+SilentOK == l <= Len(Trace) /\ Ev.t \in {"res", "final", "crash"}
+Next == Reset \/ Inv \/ Res \/ Final \/ Crash
+        \/ (SilentOK /\ \E c \in DOMAIN pend : Lin(c) \/ CopyRd(c) \/ CopyWr(c))
 Spec == Init /\ [][Next]_vars
+
+\* A restricted search used first when there are many clients: an operation takes effect either right
+\* after its own invocation or right before its own response was received.  Every behaviour of SpecEdge
+\* is a behaviour of Spec, so a witness found here is a witness; finding none decides nothing.
+AtOwnEdge(c) == \/ (l <= Len(Trace) /\ Ev.t = "res" /\ Ev.c = c)
+                \/ (l > 1 /\ Trace[l - 1].t = "inv" /\ Trace[l - 1].c = c)
+                \/ (l <= Len(Trace) /\ Ev.t \in {"final", "crash"})
+NextEdge == Reset \/ Inv \/ Res \/ Final \/ Crash
+            \/ (\E c \in DOMAIN pend : AtOwnEdge(c) /\ (Lin(c) \/ CopyRd(c) \/ CopyWr(c)))
+SpecEdge == Init /\ [][NextEdge]_vars
 
 \* witness mode (many clients): with a depth-first queue TLC stops at the first
 \* complete linearization by "violating" NotDone
